@@ -757,12 +757,22 @@ def rule_pairs(chk, prog):
   # split_axis
   v = val['split_axis']
   rz = [sym.show(guards.path_cond(p), maxdepth=10) for p, e, l in ctxs['split_axis'].raises]
-  chk.check(any('shape[axis]' in z and '!= 1' in z and 'len(set(' in z for z in rz), rule, f'{PT}.split_axis: leaves with different extents along `axis` raise', str(rz)[:200], loc('split_axis'))
+  chk.check(any('.shape[' in z and '!= 1' in z and 'len(set(' in z for z in rz), rule, f'{PT}.split_axis: leaves with different extents along `axis` raise', str(rz)[:200], loc('split_axis'))
   spl = [x for x in sym.walk(v) if match.is_ext_call(x, 'split')]
   sq = [x for x in sym.walk(v) if match.is_ext_call(x, 'squeeze')]
-  ok = len(set(spl)) == 1 and dict(spl[0].a[2]).get('axis', spl[0].a[1][2] if len(spl[0].a[1]) > 2 else None) == AX
-  ok = ok and len(set(sq)) == 1 and (dict(sq[0].a[2]).get('axis') == AX or (len(sq[0].a[1]) > 1 and sq[0].a[1][1] == AX))
-  chk.check(ok, rule, f'{PT}.split_axis splits every leaf into unit slices along `axis` and squeezes that same axis unless keep_dims', sym.show(spl[0], maxdepth=4)[:160] if spl else 'no split', loc('split_axis'))
+  def axis_of(c, pos):
+    return dict(c.a[2]).get('axis', c.a[1][pos] if len(c.a[1]) > pos else None)
+  def axis_ok(t, leaf):
+    """`axis` itself, or `axis` normalised against the rank of the very leaf it is applied to."""
+    if t == AX:
+      return True
+    if t is not None and t.k == 'phi' and sym.show(t.a[0]) == '(axis < 0)' and t.a[2] == AX and t.a[1].k == 'bin' and t.a[1].a[0] == '+':
+      other = [x for x in (t.a[1].a[1], t.a[1].a[2]) if x != AX]
+      return len(other) == 1 and other[0] == Term('attr', leaf, 'ndim')
+    return False
+  ok = len(set(spl)) == 1 and axis_ok(axis_of(spl[0], 2), spl[0].a[1][0]) and spl[0].a[1][0].k == 'loopvar'
+  ok = ok and len(set(sq)) == 1 and axis_ok(axis_of(sq[0], 1), spl[0].a[1][0] if spl else None)
+  chk.check(ok, rule, f'{PT}.split_axis splits every leaf into unit slices along `axis` (resolved per leaf) and squeezes that same axis unless keep_dims', sym.show(spl[0], maxdepth=4)[:160] if spl else 'no split', loc('split_axis'))
   chk.at_least(rule, 12)
 
 
